@@ -42,10 +42,15 @@ import (
 // ---------------------------------------------------------------- plan
 
 type c05Op struct {
-	Kind string // A append, S explicit split check, T truncate, H set HW, K checkpoint HW, E new leader epoch, C clean
-	N    int    // A: batch size
+	Kind string // A append, M AppendMessageSet, S explicit split check, T truncate, H set HW, K checkpoint HW, E new leader epoch, C clean
+	N    int    // A/M: batch size
 	Frac int    // T/H: position in permille of the current offset range
-	Bump bool   // A: messages carry a new leader epoch
+	Bump bool   // A/M: messages carry a new leader epoch
+	// T: position class.  "" = Frac; "segbase" = exactly the base offset of a
+	// segment; "epochstart" = exactly the first offset of the latest leader
+	// epoch that has messages; "last" = exactly the newest offset.  A class
+	// that is not available above the HW falls back to Frac.
+	Mode string
 }
 
 type c05Plan struct {
@@ -63,13 +68,16 @@ func (p c05Plan) String() string {
 	fmt.Fprintf(&sb, "seg=%d compact=%v retMsgs=%d retBytes=%d:", p.MaxSeg, p.Compact, p.RetMsgs, p.RetBytes)
 	for _, o := range p.Ops {
 		switch o.Kind {
-		case "A":
-			fmt.Fprintf(&sb, " A%d", o.N)
+		case "A", "M":
+			fmt.Fprintf(&sb, " %s%d", o.Kind, o.N)
 			if o.Bump {
 				sb.WriteString("e")
 			}
 		case "T", "H":
 			fmt.Fprintf(&sb, " %s%d", o.Kind, o.Frac)
+			if o.Mode != "" {
+				sb.WriteString("/" + o.Mode)
+			}
 		default:
 			sb.WriteString(" " + o.Kind)
 		}
@@ -96,10 +104,12 @@ func c05MakePlan(id int, rng *kit.RNG) c05Plan {
 	n := rng.Range(10, 22)
 	for i := 0; i < n; i++ {
 		switch x := rng.Intn(100); {
-		case x < 50:
+		case x < 42:
 			p.Ops = append(p.Ops, c05Op{Kind: "A", N: rng.Range(1, 4), Bump: rng.Chance(1, 5)})
+		case x < 50:
+			p.Ops = append(p.Ops, c05Op{Kind: "M", N: rng.Range(1, 4), Bump: rng.Chance(1, 4)})
 		case x < 58:
-			p.Ops = append(p.Ops, c05Op{Kind: "T", Frac: rng.Intn(1100)})
+			p.Ops = append(p.Ops, c05Op{Kind: "T", Frac: rng.Intn(1100), Mode: []string{"", "", "segbase", "epochstart", "last"}[rng.Intn(5)]})
 		case x < 70:
 			p.Ops = append(p.Ops, c05Op{Kind: "H", Frac: rng.Intn(1001)})
 		case x < 78:
@@ -164,6 +174,11 @@ type c05Image struct {
 	// Required: offsets of Pre that must be present after recovery.
 	Required map[int64]bool
 	HW       int64 // in-memory HW at the crash
+	// Elected: leader epochs announced with NewLeaderEpoch (an election, as
+	// opposed to an epoch first seen on an appended message) up to and
+	// including the in-flight operation.  Such an epoch may legitimately be in
+	// the history without any message carrying it.
+	Elected map[uint64]bool
 }
 
 type c05Exec struct {
@@ -182,6 +197,17 @@ type c05Exec struct {
 	pre      []vfRec
 	inflight []vfRec
 	required map[int64]bool
+	elected  map[uint64]bool
+	// onOp, when set, is called immediately before (before=true) and
+	// immediately after the log call of every operation; num = 0 for the
+	// initial open, i+1 for plan op i, len(ops)+1 for the final Close (only
+	// when closeIsOp).  At "before" pre / inflight / required / elected describe
+	// the operation about to run; at "after" model / hw are its result.
+	onOp      func(num int, before bool)
+	closeIsOp bool
+	// truncClasses, when non-nil, counts the position classes of the
+	// truncation targets of this run.
+	truncClasses map[string]int
 	// crash control
 	occ      map[string]int
 	killAt   string // "point:occ" (kill mode)
@@ -214,6 +240,10 @@ func (e *c05Exec) onPoint(name string, args ...interface{}) error {
 	img.Required = map[int64]bool{}
 	for k := range e.required {
 		img.Required[k] = true
+	}
+	img.Elected = map[uint64]bool{}
+	for k := range e.elected {
+		img.Elected[k] = true
 	}
 	e.images = append(e.images, img)
 	return nil
@@ -333,15 +363,32 @@ func (e *c05Exec) run(fail func(fp, what string)) {
 	e.rng = kit.NewRNG(e.plan.Seed)
 	e.opIdx, e.opKind = -1, "open"
 	e.pre, e.inflight, e.required = nil, nil, map[int64]bool{}
+	e.elected = map[uint64]bool{}
+	mark := func(num int, before bool) {
+		if e.onOp != nil {
+			e.onOp(num, before)
+		}
+	}
+	mark(0, true)
 	l, err := vfOpen(e.plan.opts(e.dir))
 	if err != nil {
 		fail("C05:harness-open", fmt.Sprintf("opening a fresh log failed: %v", err))
 		return
 	}
+	mark(0, false)
 	e.log = l
 	defer func() {
-		// not a crash point: detach before closing
+		// not a crash point of snapshot / kill mode: detach before closing
 		c05Runs.Delete(gid)
+		if e.closeIsOp && e.opKind == "close" {
+			mark(len(e.plan.Ops)+1, true)
+			if err := l.Close(); err != nil {
+				fail("C05:harness-close", fmt.Sprintf("Close failed in workload: %v", err))
+				return
+			}
+			mark(len(e.plan.Ops)+1, false)
+			return
+		}
 		l.Close()
 	}()
 	for i, op := range e.plan.Ops {
@@ -350,7 +397,7 @@ func (e *c05Exec) run(fail func(fp, what string)) {
 		e.inflight = nil
 		e.required = c05AllRequired(e.model)
 		switch op.Kind {
-		case "A":
+		case "A", "M":
 			if op.Bump {
 				e.epoch++
 			}
@@ -362,7 +409,20 @@ func (e *c05Exec) run(fail func(fp, what string)) {
 				msgs[k] = recs[k].msg()
 			}
 			e.inflight = recs
-			offs, err := l.Append(msgs)
+			var offs []int64
+			if op.Kind == "M" {
+				// what a follower does with the bytes it fetched from the leader
+				ms, _, merr := newMessageSetFromProto(base, 0, msgs, false)
+				if merr != nil {
+					fail("C05:harness-append", fmt.Sprintf("encoding a message set failed: %v", merr))
+					return
+				}
+				mark(i+1, true)
+				offs, err = l.AppendMessageSet(ms)
+			} else {
+				mark(i+1, true)
+				offs, err = l.Append(msgs)
+			}
 			if err != nil {
 				fail("C05:harness-append", fmt.Sprintf("Append failed in workload: %v", err))
 				return
@@ -372,11 +432,14 @@ func (e *c05Exec) run(fail func(fp, what string)) {
 				return
 			}
 			e.model = append(append([]vfRec(nil), e.model...), recs...)
+			mark(i+1, false)
 		case "S":
+			mark(i+1, true)
 			if _, err := l.checkAndPerformSplit(); err != nil {
 				fail("C05:harness-split", fmt.Sprintf("split failed in workload: %v", err))
 				return
 			}
+			mark(i+1, false)
 		case "T":
 			if len(e.model) == 0 {
 				continue
@@ -389,6 +452,34 @@ func (e *c05Exec) run(fail func(fp, what string)) {
 				continue
 			}
 			off := lo + (hi-lo)*int64(op.Frac)/1100
+			switch op.Mode {
+			case "segbase":
+				// the base offset of a segment (newest first when Frac is high)
+				var bases []int64
+				for _, sg := range l.Segments() {
+					if sg.BaseOffset >= lo && sg.BaseOffset < hi-1 {
+						bases = append(bases, sg.BaseOffset)
+					}
+				}
+				if len(bases) > 0 {
+					off = bases[(len(bases)-1)*op.Frac/1100]
+				}
+			case "epochstart":
+				// first offset carrying the epoch of the newest message
+				last := e.model[len(e.model)-1].Epoch
+				for _, r := range e.model {
+					if r.Epoch == last {
+						if r.Off >= lo {
+							off = r.Off
+						}
+						break
+					}
+				}
+			case "last":
+				if n := e.model[len(e.model)-1].Off; n >= lo {
+					off = n
+				}
+			}
 			req := map[int64]bool{}
 			var post []vfRec
 			for _, r := range e.model {
@@ -398,22 +489,28 @@ func (e *c05Exec) run(fail func(fp, what string)) {
 				}
 			}
 			e.required = req
+			e.truncClass(off)
+			mark(i+1, true)
 			if err := l.Truncate(off); err != nil {
 				fail("C05:harness-truncate", fmt.Sprintf("Truncate(%d) failed in workload: %v", off, err))
 				return
 			}
 			e.model = post
+			mark(i+1, false)
 		case "H":
 			if len(e.model) == 0 {
 				continue
 			}
 			lo, hi := e.model[0].Off, e.model[len(e.model)-1].Off
 			h := lo + (hi-lo)*int64(op.Frac)/1000
+			mark(i+1, true)
 			l.SetHighWatermark(h)
 			if h > e.hw {
 				e.hw = h
 			}
+			mark(i+1, false)
 		case "K":
+			mark(i+1, true)
 			l.mu.RLock()
 			err := l.checkpointHW()
 			l.mu.RUnlock()
@@ -421,14 +518,19 @@ func (e *c05Exec) run(fail func(fp, what string)) {
 				fail("C05:harness-checkpoint", fmt.Sprintf("checkpointHW failed: %v", err))
 				return
 			}
+			mark(i+1, false)
 		case "E":
 			e.epoch++
+			e.elected[e.epoch] = true
+			mark(i+1, true)
 			if err := l.NewLeaderEpoch(e.epoch); err != nil {
 				fail("C05:harness-epoch", fmt.Sprintf("NewLeaderEpoch failed: %v", err))
 				return
 			}
+			mark(i+1, false)
 		case "C":
 			e.required = e.mustSurviveClean()
+			mark(i+1, true)
 			if err := l.Clean(); err != nil {
 				fail("C05:harness-clean", fmt.Sprintf("Clean failed in workload: %v", err))
 				return
@@ -444,9 +546,46 @@ func (e *c05Exec) run(fail func(fp, what string)) {
 				recs = nil
 			}
 			e.model = recs
+			mark(i+1, false)
 		}
 	}
 	e.opIdx, e.opKind = len(e.plan.Ops), "close"
+	e.pre, e.inflight, e.required = e.model, nil, c05AllRequired(e.model)
+}
+
+// truncClass records which position classes a truncation target belongs to
+// (coverage counters of the units).
+func (e *c05Exec) truncClass(off int64) {
+	if e.truncClasses == nil {
+		return
+	}
+	for _, sg := range e.log.Segments() {
+		if sg.BaseOffset == off {
+			e.truncClasses["at-segment-base"]++
+		}
+	}
+	if n := len(e.model); n > 0 {
+		last := e.model[n-1]
+		if off == last.Off {
+			e.truncClasses["at-newest-offset"]++
+		}
+		if off == e.model[0].Off {
+			e.truncClasses["everything"]++
+		}
+		for _, r := range e.model {
+			if r.Epoch == last.Epoch {
+				if r.Off == off && r.Off > e.model[0].Off {
+					e.truncClasses["at-first-offset-of-latest-epoch"]++
+				}
+				break
+			}
+		}
+		for i := 1; i < n; i++ {
+			if e.model[i].Off == off && e.model[i].Epoch != e.model[i-1].Epoch && e.model[i].Epoch != last.Epoch {
+				e.truncClasses["at-first-offset-of-an-earlier-epoch"]++
+			}
+		}
+	}
 }
 
 // ---------------------------------------------------------------- directory copy (sparse aware)
@@ -759,6 +898,11 @@ func c05CheckRecovered(plan c05Plan, img *c05Image, fail func(kind, what string)
 		fail("epoch-mismatch", what)
 		return rec, false
 	}
+	// ... and the converse: the history claims nothing the messages do not bear out
+	if what := c05HistoryBorneOut(l, rec.Epoch, recs, img); what != "" {
+		fail("epoch-mismatch", what)
+		return rec, false
+	}
 
 	// ---- keep using the log
 	model := append([]vfRec(nil), recs...)
@@ -968,6 +1112,80 @@ func c05EpochConsistent(entries []epochOffset, recs []vfRec, newest int64) strin
 	return ""
 }
 
+// c05HistoryBorneOut is the converse of c05EpochConsistent: every claim of the
+// recovered leader-epoch history is borne out by the messages present.
+//
+//   - no entry starts beyond the newest offset (recovery trims the checkpoint to
+//     the log: an epoch whose first append never reached the log is forgotten);
+//   - an entry (e, s) is either append-style (the message at s carries e) or
+//     election-style (e was announced with NewLeaderEpoch when s was the newest
+//     offset: the message at s carries an older epoch); an entry whose epoch no
+//     message carries is legitimate only for an announced epoch, or while a clean
+//     that was removing that epoch's messages was in flight;
+//   - LastLeaderEpoch() is the epoch of the newest message unless a later epoch
+//     was announced;
+//   - LastOffsetForLeaderEpoch(e), which followers truncate to, lies between the
+//     last message of epochs <= e and the first message of a later epoch (the
+//     newest offset when there is none), for every epoch e that occurs.
+func c05HistoryBorneOut(l *commitLog, entries []epochOffset, recs []vfRec, img *c05Image) string {
+	newest := l.NewestOffset()
+	for _, e := range entries {
+		if e.startOffset > newest {
+			return fmt.Sprintf("the recovered epoch history %v says leader epoch %d starts at offset %d, but the newest offset of the recovered log is %d: the history is ahead of the log", entries, e.leaderEpoch, e.startOffset, newest)
+		}
+	}
+	if len(recs) == 0 {
+		return ""
+	}
+	at := map[int64]vfRec{}
+	carried := map[uint64]bool{}
+	for _, r := range recs {
+		at[r.Off] = r
+		carried[r.Epoch] = true
+	}
+	preHas := map[uint64]bool{}
+	for _, r := range img.Pre {
+		preHas[r.Epoch] = true
+	}
+	for _, e := range entries {
+		if m, ok := at[e.startOffset]; ok && m.Epoch != e.leaderEpoch {
+			if !(img.Elected[e.leaderEpoch] && m.Epoch < e.leaderEpoch) {
+				return fmt.Sprintf("the recovered epoch history %v says leader epoch %d starts at offset %d, but the message at that offset carries leader epoch %d (and epoch %d was never announced by an election)", entries, e.leaderEpoch, e.startOffset, m.Epoch, e.leaderEpoch)
+			}
+		}
+		if !carried[e.leaderEpoch] && !img.Elected[e.leaderEpoch] && !(img.OpKind == "C" && preHas[e.leaderEpoch]) {
+			return fmt.Sprintf("the recovered epoch history %v knows leader epoch %d (from offset %d) but no message of the recovered log (%s) carries it and it was never announced by an election", entries, e.leaderEpoch, e.startOffset, offsList(recs))
+		}
+	}
+	lastMsg := recs[len(recs)-1]
+	if le := l.LastLeaderEpoch(); le != lastMsg.Epoch && !(le > lastMsg.Epoch && img.Elected[le]) {
+		return fmt.Sprintf("LastLeaderEpoch() = %d after recovery, but the newest message (offset %d) carries leader epoch %d and epoch %d was never announced by an election (history %v)", le, lastMsg.Off, lastMsg.Epoch, le, entries)
+	}
+	seen := map[uint64]bool{}
+	for _, r := range recs {
+		if seen[r.Epoch] {
+			continue
+		}
+		seen[r.Epoch] = true
+		if len(entries) > 0 && r.Epoch < entries[0].leaderEpoch {
+			continue // older than the history (retention collapsed it)
+		}
+		lo, hi := int64(-1), newest
+		for _, x := range recs {
+			if x.Epoch <= r.Epoch {
+				lo = x.Off
+			} else {
+				hi = x.Off
+				break
+			}
+		}
+		if got := l.LastOffsetForLeaderEpoch(r.Epoch); got < lo || got > hi {
+			return fmt.Sprintf("LastOffsetForLeaderEpoch(%d) = %d after recovery, but the last message of an epoch <= %d is at offset %d and the first message of a later epoch (or the log end) is at %d (history %v)", r.Epoch, got, r.Epoch, lo, hi, entries)
+		}
+	}
+	return ""
+}
+
 // ---------------------------------------------------------------- units
 
 func c05Plans() []c05Plan {
@@ -992,6 +1210,34 @@ func c05Plans() []c05Plan {
 	}
 	plans[0] = cov(0, 0)
 	plans[1] = cov(1, 9)
+	// Two more fixed-shape plans reach the truncation position classes in every
+	// case list: exactly at the first offset of the latest leader epoch (an
+	// epoch first seen on an appended message, on a replicated message set, and
+	// right after an election), exactly at the newest offset, exactly at a
+	// segment base; the truncated epoch is then seen again on the next append.
+	trunc := func(id int, seg int64) c05Plan {
+		p := c05Plan{ID: id, Seed: root.Uint64(), MaxSeg: seg}
+		p.Ops = []c05Op{{Kind: "A", N: 2}, {Kind: "A", N: 2}, {Kind: "H", Frac: 300}, {Kind: "K"},
+			{Kind: "A", N: 1, Bump: true}, {Kind: "A", N: 2},
+			{Kind: "T", Mode: "epochstart", Frac: 1000},
+			{Kind: "A", N: 2}, {Kind: "M", N: 2, Bump: true}, {Kind: "A", N: 1},
+			{Kind: "T", Mode: "last", Frac: 1000},
+			{Kind: "T", Mode: "epochstart", Frac: 1000},
+			{Kind: "E"}, {Kind: "A", N: 2}, {Kind: "A", N: 1},
+			{Kind: "T", Mode: "epochstart", Frac: 1000},
+			{Kind: "A", N: 2}, {Kind: "A", N: 1},
+			{Kind: "T", Mode: "segbase", Frac: 1000},
+			{Kind: "A", N: 1, Bump: true},
+			{Kind: "T", Mode: "last", Frac: 1000},
+			{Kind: "A", N: 2}, {Kind: "K"}}
+		return p
+	}
+	if n > 3 {
+		plans[2] = trunc(2, 160)
+		if kit.Thorough() {
+			plans[3] = trunc(3, 90)
+		}
+	}
 	// replay / debugging: restrict to plans whose text contains C05_ONLY_PLAN
 	if only := os.Getenv("C05_ONLY_PLAN"); only != "" {
 		var sel []c05Plan
@@ -1029,15 +1275,21 @@ func TestVerifC05Snapshot(t *testing.T) {
 	defer os.RemoveAll(imgRoot)
 	var mu sync.Mutex
 	pointHits := map[string]int{}
+	truncHits := map[string]int{}
 	checked := 0
 	kit.Parallel(len(plans), kit.Workers(), func(i int) {
 		plan := plans[i]
 		dir := vfTempDir("c05w")
 		defer os.RemoveAll(dir)
-		ex := &c05Exec{plan: plan, dir: dir, imageDir: imgRoot, seekCopy: true}
+		ex := &c05Exec{plan: plan, dir: dir, imageDir: imgRoot, seekCopy: true, truncClasses: map[string]int{}}
 		ex.run(func(fp, what string) {
 			rep.Violation(fp, what, map[string]any{"plan": plan.String(), "seed": plan.Seed})
 		})
+		mu.Lock()
+		for k, v := range ex.truncClasses {
+			truncHits[k] += v
+		}
+		mu.Unlock()
 		if ex.copyErr != nil {
 			rep.Inconc(fmt.Sprintf("plan %d: image copy failed: %v", plan.ID, ex.copyErr))
 		}
@@ -1064,6 +1316,14 @@ func TestVerifC05Snapshot(t *testing.T) {
 		rep.Count("images@"+p, int64(pointHits[p]))
 		if pointHits[p] == 0 {
 			rep.Inconc("crash point never reached by this case list: " + p)
+		}
+	}
+	for _, c := range []string{"at-segment-base", "at-newest-offset", "at-first-offset-of-latest-epoch", "at-first-offset-of-an-earlier-epoch", "everything"} {
+		rep.Count("truncate@"+c, int64(truncHits[c]))
+	}
+	for _, c := range []string{"at-segment-base", "at-newest-offset", "at-first-offset-of-latest-epoch"} {
+		if truncHits[c] == 0 {
+			rep.Inconc("truncation position class never produced by this case list: " + c)
 		}
 	}
 	rep.SetInfo("plans", len(plans))
